@@ -161,7 +161,7 @@ def gen_cases(cx):
             cases.append((yang, wd, spec_str(items), m))
 
     # 1. random schemas / trees under every with-defaults mode
-    for _ in range(cx.n(60, 600)):
+    for _ in range(cx.n(120, 1000)):
         mod = ident(rng, 3, 8).replace("-", "x")
         g = Gen(rng, mod, rng.choice([1, 2, 3, 4]), rng.choice([2, 3, 5]))
         tops = [g.node(n, 0) for n in g.names(rng.randrange(1, 5))]
@@ -169,13 +169,14 @@ def gen_cases(cx):
         items = []
         for t in tops:
             g.data(t, "", items)
-        add(yang, items, {"kind": "random", "has_default": g.has_default})
+        # implicit default nodes may appear anywhere below a non-presence path: any default in the schema counts
+        add(yang, items, {"kind": "random", "has_default": g.has_default or " default " in yang})
 
     # 2. large values around k * LYB_SIZE_MAX at nesting 1..6 (every alignment of the chunk end against the 8-byte length
     #    prefix, the next node header and the closing records is hit by a sweep of consecutive sizes)
     sweep = []
     for k in (1, 2, 3):
-        ds = range(-40, 41) if cx.tier == "thorough" else sorted(rng.sample(range(-40, 41), 7))
+        ds = range(-40, 41) if cx.tier == "thorough" else sorted(rng.sample(range(-40, 41), 12))
         for d in ds:
             sweep.append(k * MAX + d)
     for size in sweep:
